@@ -17,6 +17,7 @@ pub fn contains_usize(v: &[usize], x: &usize) -> (r: bool)
 #[verifier::external_body]
 pub fn sort_usize(v: &mut Vec<usize>)
     ensures sorted_usize(final(v)@), final(v)@.len() == old(v)@.len(), final(v)@.to_multiset() == old(v)@.to_multiset(),
+            forall|x: usize| final(v)@.contains(x) == old(v)@.contains(x),
 { unimplemented!() }
 #[verifier::external_body]
 pub fn dedup_usize(v: &mut Vec<usize>)
@@ -32,3 +33,19 @@ pub open spec fn p2(b: nat) -> nat decreases b { if b == 0 { 1 } else { 2 * p2((
 pub open spec fn bitlen(n: nat) -> nat decreases n { if n == 0 { 0 } else { 1 + bitlen(n / 2) } }
 pub assume_specification [usize::leading_zeros] (n: usize) -> (r: u32)
     ensures r == 64 - bitlen(n as nat), r <= 64;
+impl<K, V> BTreeMap<K, V> {
+    #[verifier::external_body] pub fn new() -> (r: Self) ensures r@ == Map::<K, V>::empty() { unimplemented!() }
+    #[verifier::external_body] pub fn len(&self) -> (r: usize) ensures r == self@.len(), self@.dom().finite() { unimplemented!() }
+}
+// `v.into_iter().enumerate().collect::<BTreeMap<usize, T>>()`  (rewrite R10): the map i -> v[i]
+#[verifier::external_body]
+pub fn btree_from_indexed<T>(v: Vec<T>) -> (r: BTreeMap<usize, T>)
+    ensures forall|i: usize| r@.dom().contains(i) == (i < v@.len()), forall|i: usize| i < v@.len() ==> r@[i] == v@[i as int]
+{ unimplemented!() }
+// `m[&k]` (Index<&K>): panics (= diverges) if the key is absent
+#[verifier::external_body]
+pub fn btree_index<V: Copy>(m: &BTreeMap<usize, V>, k: &usize) -> (r: V)
+    ensures m@.dom().contains(*k), r == m@[*k]
+{ unimplemented!() }
+pub assume_specification<T: Clone>[ <[T]>::to_vec ](s: &[T]) -> (r: Vec<T>)
+    ensures r@ == s@;
